@@ -90,6 +90,15 @@ class DispInst(object):
 
 
 EXC_CLASSES = {}
+_SHARED = {}
+
+
+def _make_shared():
+    from jsonrpclib import Fault
+    _SHARED["fault"] = Fault(-32002, "shared-fault", data=[1])
+
+
+_make_shared()  # at import: every execution of every harness sees the same, already existing object
 
 
 class World(object):
@@ -215,6 +224,13 @@ class World(object):
                                 v.append("added-by-the-callee")
             return sizes
 
+        def sharedfault():
+            # an application error reported by returning the same long-lived Fault object on every call
+            from jsonrpclib import Fault
+            log.append(("sharedfault", [], {}))
+            return _SHARED["fault"]
+
+        reg("sharedfault", sharedfault)
         reg("mutate", mutate)
         reg("badkeys", badkeys)
         reg("cyclic", cyclic)
